@@ -11,12 +11,11 @@
   panics" is `C12_state_decodable` (all reachable states; since kira fix "track waiting on a dropped
   clock stays paused": `C12_missing_clock_leaves_paused`).
   "Dropping the handle of a persisting track lets its sounds finish" is `C12_removal_rule` /
-  `C12_removed_when_partial` (pending sounds count since kira fix "persisting track was removed with a
+  `C12_removed_when_leaf` (pending sounds count since kira fix "persisting track was removed with a
   sound still waiting to be added": `C12_pending_sound_kept`).
-  One clause of the property is FALSE of the current code and is proved false here:
-  * "a track is never removed while a descendant is alive" ignores sub-tracks still in the
-    new-resource ring: `C12_pending_child_lost`; the rules that do hold are `C12_removal_rule` and
-    `C12_removed_when_partial`.
+  "A track is never removed while a descendant track is alive" is `C12_removal_rule` / `C12_removed_when`
+  (sub-tracks still in the new-resource ring count since kira fix "parent track was removed with a
+  sub-track still waiting to be added": `C12_pending_child_kept`).
 -/
 import KiraModel.Proofs.TrackLifeLemmas
 
@@ -78,56 +77,102 @@ theorem C12_resume_continues_probe (t t' : Trk α (PSnd α) (PFx α) Unit) (d : 
   rw [(C12_resume_continues probeComps d t t' h).2.2.1]
 
 /-- **Removal rule.**  `should_be_removed` holds iff the handle was dropped, and (the track does not
-    persist or it has no sound at all: none inserted, none waiting in the new-resource ring), and every
-    inserted sub-track is itself removable; hence a
-    removable track has only removable inserted descendants, all of whose handles were dropped — a track
-    is never removed while an *inserted* descendant is not removable.  At `on_start_processing` exactly
-    the removable tracks of an arena disappear (ids of the survivors, in order). -/
+    persist or it has no sound at all: none inserted, none waiting in the new-resource ring), and no
+    sub-track is waiting in the new-resource ring, and every inserted sub-track is itself removable.  Hence:
+    * a removable track has only removable descendants (inserted or in a ring, at any depth), all of whose
+      handles were dropped — **a track is never removed while a descendant track is alive**;
+    * a dropped persisting track with a live or pending sound is not removable — it **keeps playing until
+      its sounds finish**;
+    * a track with a pending sub-track, or with an inserted sub-track that is not removable, is not removable. -/
 theorem C12_removal_rule (d : TrkData α S E P) (children pending : List (Trk α S E P)) :
     (Trk.shouldBeRemoved (.node d children pending) = true
-        ↔ d.marked = true ∧ (d.persist = true → d.sounds = [] ∧ d.pendingSounds = [])
+        ↔ d.marked = true ∧ (d.persist = true → d.sounds = [] ∧ d.pendingSounds = []) ∧ pending = []
             ∧ ∀ c ∈ children, Trk.shouldBeRemoved c = true)
       ∧ (Trk.shouldBeRemoved (.node d children pending) = true →
           ∀ x ∈ Trk.descendants (.node d children pending), Trk.shouldBeRemoved x = true ∧ x.data.marked = true)
-      ∧ (Trk.onStartKept C children).map (·.data.id)
-          = (children.filter (fun t => !Trk.shouldBeRemoved t)).map (·.data.id) :=
-  ⟨Trk.shouldBeRemoved_iff d children pending, Trk.removable_descendants _, Trk.onStartKept_ids C children⟩
-
-/-- **When a track is removed** (what `Mixer::on_start_processing` does to the top-level arena; the same
-    equation holds inside every track for its sub-tracks): every track still in the new-resource ring is
-    inserted at the head — even if its handle has already been dropped, so such a track is rendered for one
-    callback and removed "the one after" — and the inserted tracks that are removable disappear. -/
-theorem C12_removed_when (m : Mixer α S E P) :
-    (m.onStart C).subTracks.map (·.data.id)
-      = (m.pendingSubTracks.map (·.data.id)).reverse
-          ++ (m.subTracks.filter (fun t => !Trk.shouldBeRemoved t)).map (·.data.id) := by
-  simp [Mixer.onStart, Trk.onStartList_ids, Trk.onStartKept_ids, List.map_reverse]
-
-/-- Corollaries for a track without inserted sub-tracks.  Not persisting: removable iff its handle was
-    dropped (so it goes at the next callback).  Persisting: removable iff dropped and no sound is left,
-    inserted or pending — and at each `on_start_processing` the sound arena becomes "pending sounds (newest
-    first), then the unfinished ones", so it empties exactly when the last sound has finished and the track
-    goes at the callback after that: a dropped persisting track keeps playing until its sounds finish.
-    (For sub-tracks the clause "…while a descendant is alive" is still false: `C12_pending_child_lost`.) -/
-theorem C12_removed_when_partial (d : TrkData α S E P) (pending : List (Trk α S E P)) :
-    (d.persist = false → (Trk.shouldBeRemoved (.node d [] pending) = true ↔ d.marked = true))
-      ∧ (d.persist = true →
-          (Trk.shouldBeRemoved (.node d [] pending) = true ↔ d.marked = true ∧ d.sounds = [] ∧ d.pendingSounds = []))
-      ∧ (d.persist = true → (d.sounds ≠ [] ∨ d.pendingSounds ≠ []) → ∀ children,
+      ∧ ((∃ x ∈ Trk.descendants (.node d children pending), x.data.marked = false) →
           Trk.shouldBeRemoved (.node d children pending) = false)
-      ∧ (Trk.onStart C (.node d [] pending)).data.sounds.length
-          = d.pendingSounds.length + (d.sounds.filter (fun s => !C.sndFinished s)).length := by
-  refine ⟨?_, ?_, ?_, ?_⟩
-  · intro hp; rw [Trk.shouldBeRemoved_iff]; simp [hp]
-  · intro hp; rw [Trk.shouldBeRemoved_iff]; simp [hp]
-  · intro hp hs children
+      ∧ (d.persist = true → (d.sounds ≠ [] ∨ d.pendingSounds ≠ []) →
+          Trk.shouldBeRemoved (.node d children pending) = false)
+      ∧ ((pending ≠ [] ∨ ∃ c ∈ children, Trk.shouldBeRemoved c = false) →
+          Trk.shouldBeRemoved (.node d children pending) = false) := by
+  have hiff := Trk.shouldBeRemoved_iff d children pending
+  refine ⟨hiff, Trk.removable_descendants _, ?_, ?_, ?_⟩
+  · rintro ⟨x, hx, hm⟩
+    cases hr : Trk.shouldBeRemoved (.node d children pending) with
+    | false => rfl
+    | true => rw [(Trk.removable_descendants _ hr x hx).2] at hm; cases hm
+  · intro hp hs
     cases hr : Trk.shouldBeRemoved (.node d children pending) with
     | false => rfl
     | true =>
-      have := ((Trk.shouldBeRemoved_iff d children pending).mp hr).2.1 hp
+      have := (hiff.mp hr).2.1 hp
       rcases hs with hs | hs
       · exact absurd this.1 hs
       · exact absurd this.2 hs
+  · intro hs
+    cases hr : Trk.shouldBeRemoved (.node d children pending) with
+    | false => rfl
+    | true =>
+      obtain ⟨_, _, hp, hc⟩ := hiff.mp hr
+      rcases hs with hs | ⟨c, hc', hcr⟩
+      · exact absurd hp hs
+      · rw [hc c hc'] at hcr; cases hcr
+
+/-- **When a track is removed** (what `Mixer::on_start_processing` does to the top-level arena, and what
+    `Track::on_start_processing` does to the sub-tracks of every track): every track still in the
+    new-resource ring is inserted at the head — even if its handle has already been dropped, so such a track
+    is rendered for one callback and removed "the one after" — and exactly the inserted tracks that are
+    removable (`C12_removal_rule`) disappear: a track that is not removable — its handle alive, or a
+    descendant's, or persisting with a live or pending sound, or with a pending sub-track — is still there
+    after the callback (having run its own `on_start_processing`). -/
+theorem C12_removed_when (m : Mixer α S E P) (d : TrkData α S E P) (children pending : List (Trk α S E P)) :
+    (m.onStart C).subTracks.map (·.data.id)
+        = (m.pendingSubTracks.map (·.data.id)).reverse
+            ++ (m.subTracks.filter (fun t => !Trk.shouldBeRemoved t)).map (·.data.id)
+      ∧ (∀ t ∈ m.subTracks, Trk.shouldBeRemoved t = false → Trk.onStart C t ∈ (m.onStart C).subTracks)
+      ∧ (∀ t ∈ m.pendingSubTracks, Trk.onStart C t ∈ (m.onStart C).subTracks)
+      ∧ (m.onStart C).pendingSubTracks = []
+      ∧ (Trk.onStart C (.node d children pending)).children.map (·.data.id)
+          = (pending.map (·.data.id)).reverse ++ (children.filter (fun t => !Trk.shouldBeRemoved t)).map (·.data.id)
+      ∧ (∀ t ∈ children, Trk.shouldBeRemoved t = false →
+          Trk.onStart C t ∈ (Trk.onStart C (.node d children pending)).children)
+      ∧ (∀ t ∈ pending, Trk.onStart C t ∈ (Trk.onStart C (.node d children pending)).children)
+      ∧ (Trk.onStart C (.node d children pending)).pending = [] := by
+  refine ⟨?_, ?_, ?_, rfl, ?_, ?_, ?_, ?_⟩
+  · simp [Mixer.onStart, Trk.onStartList_ids, Trk.onStartKept_ids, List.map_reverse]
+  · intro t ht hr
+    simp only [Mixer.onStart, List.mem_append]
+    exact Or.inr (Trk.onStartKept_mem C _ t ht hr)
+  · intro t ht
+    simp only [Mixer.onStart, List.mem_append, List.mem_reverse]
+    exact Or.inl (Trk.onStartList_mem C _ t ht)
+  · rw [Trk.onStart]
+    simp [Trk.children, Trk.onStartList_ids, Trk.onStartKept_ids, List.map_reverse]
+  · intro t ht hr
+    rw [Trk.onStart]
+    simp only [Trk.children, List.mem_append]
+    exact Or.inr (Trk.onStartKept_mem C _ t ht hr)
+  · intro t ht
+    rw [Trk.onStart]
+    simp only [Trk.children, List.mem_append, List.mem_reverse]
+    exact Or.inl (Trk.onStartList_mem C _ t ht)
+  · rw [Trk.onStart]; rfl
+
+/-- Corollaries for a track without sub-tracks.  Not persisting: removable iff its handle was dropped (so
+    it goes at the next callback).  Persisting: removable iff dropped and no sound is left, inserted or
+    pending — and at each `on_start_processing` the sound arena becomes "pending sounds (newest first), then
+    the unfinished ones", so it empties exactly when the last sound has finished and the track goes at the
+    callback after that: a dropped persisting track keeps playing until its sounds finish. -/
+theorem C12_removed_when_leaf (d : TrkData α S E P) (pending : List (Trk α S E P)) :
+    (d.persist = false → (Trk.shouldBeRemoved (.node d [] []) = true ↔ d.marked = true))
+      ∧ (d.persist = true →
+          (Trk.shouldBeRemoved (.node d [] []) = true ↔ d.marked = true ∧ d.sounds = [] ∧ d.pendingSounds = []))
+      ∧ (Trk.onStart C (.node d [] pending)).data.sounds.length
+          = d.pendingSounds.length + (d.sounds.filter (fun s => !C.sndFinished s)).length := by
+  refine ⟨?_, ?_, ?_⟩
+  · intro hp; rw [Trk.shouldBeRemoved_iff]; simp [hp]
+  · intro hp; rw [Trk.shouldBeRemoved_iff]; simp [hp]
   · have hs : ∀ d : TrkData α S E P, (Trk.readCommands d).sounds = d.sounds ∧ (Trk.readCommands d).pendingSounds = d.pendingSounds := by
       intro d; unfold Trk.readCommands Trk.publish; dsimp only; split <;> split <;> exact ⟨rfl, rfl⟩
     rw [Trk.onStart]; simp [Trk.data, removeAndAdd, (hs d).1, (hs d).2]
@@ -146,15 +191,26 @@ theorem C12_pending_sound_kept (s : S) :
   · simp [Trk.hDrop, Trk.hPlay, Trk.mapData, Trk.build, Trk.shouldBeRemoved, Trk.anyNotRemovable]
   · simp [Trk.hDrop, Trk.hPlay, Trk.mapData, Trk.build, Trk.onStart, Trk.readCommands, Trk.data, removeAndAdd]
 
-/-- **Finding (c), proved of the model**: a track whose handle is dropped while a sub-track added through
-    it is still in the ring is removable although that sub-track's handle is alive (not marked). -/
-theorem C12_pending_child_lost :
-    ∃ t child : Trk α S E P, t.pending = [child] ∧ child.data.marked = false ∧ Trk.shouldBeRemoved t = true :=
-  ⟨Trk.hDrop (Trk.hAddSubTrack (Trk.build 1 (0.0 : α) [] [] false 1) (Trk.build 0 (0.0 : α) [] [] false 1)),
-    Trk.build 1 (0.0 : α) [] [] false 1,
-    by simp [Trk.hDrop, Trk.hAddSubTrack, Trk.mapData, Trk.build, Trk.pending],
-    by simp [Trk.build, Trk.data],
-    by simp [Trk.hDrop, Trk.hAddSubTrack, Trk.mapData, Trk.build, Trk.shouldBeRemoved, Trk.anyNotRemovable]⟩
+/-- **A sub-track still in the ring keeps its dropped parent** (the history of the repaired finding (c)):
+    add a sub-track through a track's handle and drop that handle before the next callback — the parent is
+    not removable; `on_start_processing` inserts the child; and at the callback after that the parent is
+    still not removable, because the inserted child's handle is alive. -/
+theorem C12_pending_child_kept :
+    let child : Trk α S E P := Trk.build 1 (0.0 : α) [] [] false 1
+    let t : Trk α S E P := Trk.hDrop (Trk.hAddSubTrack child (Trk.build 0 (0.0 : α) [] [] false 1))
+    t.data.marked = true ∧ t.pending = [child] ∧ child.data.marked = false
+      ∧ Trk.shouldBeRemoved t = false
+      ∧ (Trk.onStart C t).children.map (·.data.id) = [1]
+      ∧ Trk.shouldBeRemoved (Trk.onStart C t) = false := by
+  refine ⟨?_, ?_, ?_, ?_, ?_, ?_⟩
+  · simp [Trk.hDrop, Trk.hAddSubTrack, Trk.mapData, Trk.build, Trk.data]
+  · simp [Trk.hDrop, Trk.hAddSubTrack, Trk.mapData, Trk.build, Trk.pending]
+  · simp [Trk.build, Trk.data]
+  · simp [Trk.hDrop, Trk.hAddSubTrack, Trk.mapData, Trk.build, Trk.shouldBeRemoved]
+  · simp [Trk.hDrop, Trk.hAddSubTrack, Trk.mapData, Trk.build, Trk.onStart, Trk.onStartList, Trk.onStartKept,
+      Trk.readCommands, Trk.children, Trk.data]
+  · simp [Trk.hDrop, Trk.hAddSubTrack, Trk.mapData, Trk.build, Trk.onStart, Trk.onStartList, Trk.onStartKept,
+      Trk.readCommands, Trk.shouldBeRemoved, Trk.anyNotRemovable]
 
 /-! ### the state a handle reports -/
 
